@@ -86,7 +86,7 @@ class Env:
                 vals = " ".join(want_values)
                 s2 = pre + f"(assert {a})\n(check-sat)\n(get-value ({vals}))\n"
                 txt = run_solver_raw([Z3, "-in", "-T:120"], s2)
-                d["model"] = parse_get_value(txt)
+                d["model"] = parse_get_value(txt, want_values)
             out.append(d)
         return out
 
@@ -106,17 +106,60 @@ def run_solver(cmd, script):
     return [l.strip() for l in txt.splitlines() if l.strip() in ("sat", "unsat", "unknown", "timeout")]
 
 
-def parse_get_value(txt):
-    m = {}
-    for name, val in re.findall(r"\((\|[^|]*\||[^\s()]+) (#x[0-9a-fA-F]+|#b[01]+|true|false|\(_ bv\d+ \d+\))\)", txt):
-        if val.startswith("#x"):
-            m[name] = int(val[2:], 16)
-        elif val.startswith("#b"):
-            m[name] = int(val[2:], 2)
-        elif val in ("true", "false"):
-            m[name] = (val == "true")
+def _sexps(txt):
+    """top-level s-expressions of txt as strings"""
+    out, d, cur, inbar = [], 0, "", False
+    for ch in txt:
+        if ch == "|":
+            inbar = not inbar
+        if not inbar:
+            if ch == "(":
+                d += 1
+            elif ch == ")":
+                d -= 1
+        if d == 0 and not inbar and ch.isspace():
+            if cur.strip():
+                out.append(cur.strip())
+            cur = ""
         else:
-            m[name] = int(re.match(r"\(_ bv(\d+)", val).group(1))
+            cur += ch
+            if d == 0 and not inbar and ch == ")":
+                out.append(cur.strip())
+                cur = ""
+    if cur.strip():
+        out.append(cur.strip())
+    return out
+
+
+def _val(v):
+    v = v.strip()
+    if v.startswith("#x"):
+        return int(v[2:], 16)
+    if v.startswith("#b"):
+        return int(v[2:], 2)
+    if v in ("true", "false"):
+        return v == "true"
+    m = re.match(r"\(_ bv(\d+)", v)
+    if m:
+        return int(m.group(1))
+    return v
+
+
+def parse_get_value(txt, wanted=None):
+    """z3 answers `((t1 v1) (t2 v2) ...)` in the order asked: map the requested term strings to python values"""
+    i = txt.find("((")
+    if i < 0:
+        return {}
+    body = _sexps(txt[i:])
+    if not body:
+        return {}
+    pairs = _sexps(body[0][1:-1])
+    m = {}
+    for k, pr in enumerate(pairs):
+        parts = _sexps(pr[1:-1])
+        if len(parts) >= 2:
+            key = wanted[k] if wanted and k < len(wanted) else parts[0]
+            m[key] = _val(parts[-1])
     return m
 
 
@@ -230,6 +273,8 @@ def model_map_err(ex, path, frame, callee, args, dest_ty):
 
 
 def model_min_max(ex, path, frame, callee, args, dest_ty):
+    if len(args) != 2:
+        return NotImplemented
     a, b = args[0], args[1]
     if not (isinstance(a, Leaf) and isinstance(b, Leaf) and a.ty in mirsmt.INT_W):
         return NotImplemented
@@ -402,7 +447,12 @@ def run_visibility(env, ob, fn_name, file_hint, region, spec_builder, finding_re
     if r[0]["verdict"] == "unsat":
         return result(ob, "discharged", **kw)
     if r[0]["verdict"] == "sat":
-        return result(ob, "violated", failed=[ob["assert"]], cex={"model": r[0]["model"], "fn": fn_name}, **kw)
+        res_ = result(ob, "violated", failed=[ob["assert"]], cex={"model": r[0]["model"], "fn": fn_name}, **kw)
+        try:
+            res_["native_code"] = W["gen"](ob, r[0]["model"] or {})
+        except Exception as e:  # noqa
+            res_["cex"]["gen_error"] = repr(e)
+        return res_
     return result(ob, "inconclusive", reason=r[0]["verdict"], **kw)
 
 
@@ -412,8 +462,78 @@ def spec_committed_before(env, ctx, args):
     W = snapshot_world(env, ctx, snap, [t])
     W["t"] = t
     W["spec"] = f"(= (st {t}) {COMMITTED})"
-    W["values"] = [W["xid"], t, W["m"], W["some"], f"(st {t})", f"({W['act']} {t})", f"({W['abo']} {t})"]
+    W["values"] = [W["xid"], t, W["m"], W["some"], W["spec"], f"({W['act']} {t})", f"({W['abo']} {t})"]
+    W["gen"] = gen_committed_before(W)
     return W
+
+
+def _sets_code(model, W, ids):
+    """Rust statements filling `active` / `aborted` HashSets consistently with the model for the probed ids"""
+    out = []
+    for u in ids:
+        uv = model.get(u)
+        if uv is None:
+            continue
+        if model.get(f"({W['act']} {u})"):
+            out.append(f"active.insert({uv}u64);")
+        if model.get(f"({W['abo']} {u})"):
+            out.append(f"aborted.insert({uv}u64);")
+    return "\n    ".join(out)
+
+
+def gen_committed_before(W):
+    def gen(ob, model):
+        t, xid = model[W["t"]], model[W["xid"]]
+        xmax = f"Some({model[W['m']]}u64)" if model.get(W["some"]) else "None"
+        expect = "true" if model.get(W["spec"]) else "false"
+        name = "gen_" + re.sub(r"\W+", "_", ob["id"]).strip("_").lower()
+        code = f"""// host: multithreading/coordinator.rs
+// generated from the solver model of obligation {ob['id']}
+use super::*;
+use std::collections::HashSet;
+
+#[test]
+fn replay_model() {{
+    let mut active: HashSet<u64> = HashSet::new();
+    let mut aborted: HashSet<u64> = HashSet::new();
+    {_sets_code(model, W, [W['t']])}
+    let snap = Snapshot::new({xid}u64, {xid}u64, {xmax}, active, aborted);
+    assert_eq!(snap.is_committed_before_snapshot({t}u64), {expect}, "reference world model says committed-before = {expect} for id {t} (own id {xid}, xmax {xmax})");
+}}
+"""
+        return {"name": name, "code": code}
+    return gen
+
+
+def gen_valid_for_snapshot(env, W):
+    lay = env.struct_fields("storage/tuple.rs", "TupleLayout")
+
+    def gen(ob, model):
+        xid, cx = model[W["xid"]], model[W["cx"]]
+        xmax = f"Some({model[W['m']]}u64)" if model.get(W["some"]) else "None"
+        dele = f"Some({model[W['d']]}u64)" if model.get(W["has_del"]) else "None"
+        expect = "true" if model.get(W["spec"]) else "false"
+        defaults = {"version_xmin": f"{cx}u64", "version_xmax": dele, "null_bitmap_start": "0", "key_offsets": "vec![0]",
+                    "value_offsets": "vec![]", "data_end": "0", "version": "0"}
+        fields = ", ".join(f"{f}: {defaults.get(f, 'Default::default()')}" for f in lay)
+        name = "gen_" + re.sub(r"\W+", "_", ob["id"]).strip("_").lower()
+        code = f"""// host: storage/tuple.rs
+// generated from the solver model of obligation {ob['id']}
+use super::*;
+use std::collections::HashSet;
+
+#[test]
+fn replay_model() {{
+    let mut active: HashSet<u64> = HashSet::new();
+    let mut aborted: HashSet<u64> = HashSet::new();
+    {_sets_code(model, W, [W['cx'], W['d']])}
+    let snap = Snapshot::new({xid}u64, {xid}u64, {xmax}, active, aborted);
+    let layout = TupleLayout {{ {fields} }};
+    assert_eq!(layout.is_valid_for_snapshot(&snap), {expect}, "reference: version created by {cx} deleted by {dele} must be visible={expect} to transaction {xid} (snapshot xmax {xmax})");
+}}
+"""
+        return {"name": name, "code": code}
+    return gen
 
 
 VIS_FUNCS = "Snapshot::is_committed_before_snapshot"
@@ -452,7 +572,9 @@ def spec_valid_for_snapshot(env, ctx, args):
     deleted = f"(and {has_del} (or (= {d} {W['xid']}) (= (st {d}) {COMMITTED})))"
     W["spec"] = f"(and {creator_ok} (not {deleted}))"
     W["cx"], W["d"], W["has_del"] = cx, d, has_del
-    W["values"] = [W["xid"], cx, d, has_del, W["m"], W["some"], f"(st {cx})", f"(st {d})"]
+    W["values"] = [W["xid"], cx, d, has_del, W["m"], W["some"], W["spec"], f"({W['act']} {cx})", f"({W['abo']} {cx})",
+                   f"({W['act']} {d})", f"({W['abo']} {d})"]
+    W["gen"] = gen_valid_for_snapshot(env, W)
     return W
 
 
@@ -778,7 +900,7 @@ def c02_analysis_classification(env, ob):
 # ---------------------------------------------------------------------------------------------------------------------
 # C09: transaction ids never collide / go backwards
 # ---------------------------------------------------------------------------------------------------------------------
-@obligation(id="C09.txid_monotone", funcs="TransactionCoordinator::begin,TransactionCoordinator::commit",
+@obligation(id="C09.txid_monotone", also="C04", funcs="TransactionCoordinator::begin,TransactionCoordinator::commit",
             bounds="every path of begin() and commit(); pager accessors uninterpreted (pure getters)",
             native="c09_txids_distinct")
 def c09_txid_monotone(env, ob):
@@ -816,6 +938,31 @@ def c09_txid_monotone(env, ob):
             return ("commit_counter_not_integer", None)
         return ("commit_lowers_last_committed", f"(bvult {new.term} {cur.term})")
     agg = merge(agg, trace_obligation(env, ob, ctx, res, bad_commit, "commit() can store a smaller last_committed"))
+    return agg
+
+
+@obligation(id="C04.dml_stamps_own_xid", also="C03,C18", funcs="DmlExecutor::insert,DmlExecutor::update,DmlExecutor::delete",
+            bounds="every path of the three DML entry points; callees uninterpreted", native="c04_delete_with_older_session")
+def c04_dml_stamps(env, ob):
+    """The transaction id written into a new tuple (xmin), a new version or a delete mark (xmax) must be the id of
+    the executing transaction (ThreadContext::tid / its snapshot's xid), nothing else (e.g. not the snapshot's xmin)."""
+    agg = None
+    for fn, rx, ai in (("insert", r"TupleBuilder::<.*>::build$", -1), ("update", r"Tuple::add_version_with$", 2),
+                       ("delete", r"Tuple::delete$", 1)):
+        ctx, f, args, res = explore(env, "runtime/dml.rs", fn, sig=r"DmlExecutor")
+
+        def bad(path, rv, fn=fn, rx=rx, ai=ai):
+            if path.panics or rv is None:
+                return None
+            own = {e["ret"].term for e in path.events
+                   if callee_is(e, r"(Snapshot::xid|ThreadContext::tid|TransactionContext::tid)$") and isinstance(e["ret"], Leaf)}
+            for e in path.events:
+                if callee_is(e, rx):
+                    a = e["args"][ai]
+                    if not isinstance(a, Leaf) or a.term not in own:
+                        return (f"row_stamped_with_other_than_own_xid@DmlExecutor::{fn}", None)
+            return None
+        agg = merge(agg, trace_obligation(env, ob, ctx, res, bad, "stamp argument is not the executing transaction's id"))
     return agg
 
 
@@ -897,6 +1044,76 @@ def c03_update_stamp(env, ob):
             return ("new_version_not_stamped_with_updater", conj([okc, f"(not (= {xm.term} {newx.term}))"]))
         return ("new_version_not_stamped_with_updater", okc)
     return trace_obligation(env, ob, ctx, res, bad, "TupleHeader::new for the new version does not receive new_xmin")
+
+
+# ---------------------------------------------------------------------------------------------------------------------
+# C19 / C10: composite keys are compared column by column, each read where the previous one ended
+# ---------------------------------------------------------------------------------------------------------------------
+@obligation(id="C19.composite_key_cursors", also="C10", funcs="CellComparator::compare_keys",
+            bounds="every path of compare_keys with the key loop unrolled twice (keys of 1 and 2 columns); "
+                   "DataTypeKind::deserialize and DataTypeRef::partial_cmp uninterpreted",
+            native="c19_composite_key_order")
+def c19_composite_cursors(env, ob):
+    """When key column i compares Equal, column i+1 must be decoded at exactly the offsets where column i ended, in
+    BOTH buffers (search key and stored cell)."""
+    ctx, f, args, res = explore(env, "tree/cell_ops.rs", "compare_keys", loop_bound=2)
+    cands = []
+    n2 = 0
+    for path, rv in res:
+        if path.panics:
+            continue
+        des = [e for e in path.events if callee_is(e, r"::deserialize$")]
+        if len(des) < 4:
+            continue
+        n2 += 1
+        # events come in pairs (target, cell) per key column
+        t1, c1, t2, c2 = des[0], des[1], des[2], des[3]
+
+        def next_of(e):
+            r = e["ret"]
+            if not isinstance(r, Agg):
+                return None
+            ok = r.variants.get("Ok") if "Ok" in r.variants else None
+            return None
+        # the `next` cursors are read from the (mapped) Ok payload; find them through the argument of the later call
+        cur_t2, cur_c2 = t2["args"][-1], c2["args"][-1]
+        cur_t1, cur_c1 = t1["args"][-1], c1["args"][-1]
+        if not all(isinstance(x, Leaf) for x in (cur_t2, cur_c2)):
+            continue
+        # the payload symbols of the first decode results: names derive from the event's return symbol
+        nt = find_next_symbol(ctx, path, t1)
+        nc = find_next_symbol(ctx, path, c1)
+        if nt is None or nc is None:
+            raise Unsupported("cannot locate the `next` cursor returned by deserialize")
+        cands.append(conj(path.pc + [f"(or (not (= {cur_t2.term} {nt})) (not (= {cur_c2.term} {nc})))"]))
+    if not cands:
+        return result(ob, "inconclusive", reason="vacuity: no path decodes a second key column", paths=len(res))
+    chk = env.check(ctx, [disj(sorted(set(cands)))])
+    kw = dict(paths=len(res), queries=1, events=n2)
+    if chk[0]["verdict"] == "unsat":
+        return result(ob, "discharged", **kw)
+    if chk[0]["verdict"] == "sat":
+        return result(ob, "violated", failed=["second_key_column_read_at_wrong_offset"],
+                      cex={"what": "after an Equal first key column the next column is decoded at an offset different from where the first one ended"}, **kw)
+    return result(ob, "inconclusive", reason=chk[0]["verdict"], **kw)
+
+
+def find_next_symbol(ctx, path, ev):
+    """SMT symbol of the `.1` (next cursor) component of the Ok payload of a deserialize-like call result, following
+    one map_err"""
+    r = ev["ret"]
+    names = [r.name] if isinstance(r, Agg) and r.name else []
+    for e2 in path.events:
+        if e2.get("modelled") and e2["args"] and isinstance(e2["ret"], Agg) and e2["ret"].name and \
+                isinstance(e2["args"][0], Agg) and e2["args"][0].name == r.name:
+            names.append(e2["ret"].name)
+    # a later modelled map_err on this result produces an aggregate `mapped!k` sharing the Ok payload cell
+    for nm in names:
+        for cand in (f"{nm}@Ok.0.1",):
+            sn = ctx.smtname(cand)
+            if sn in ctx.decls:
+                return sn
+    return None
 
 
 # ---------------------------------------------------------------------------------------------------------------------
@@ -1221,6 +1438,77 @@ def c05_precedence(env, ob):
     return result(ob, "discharged", **kw)
 
 
+# ---------------------------------------------------------------------------------------------------------------------
+# C20: the frame reader returns exactly the announced number of bytes or an error
+# ---------------------------------------------------------------------------------------------------------------------
+def _veclen_models():
+    def from_elem(ex, path, frame, callee, args, dest_ty):
+        v = Agg(ex.ctx, ex.ctx.fresh("vec"), dest_ty)
+        v.veclen = args[1].term if isinstance(args[1], Leaf) else None
+        return v
+
+    def new_vec(ex, path, frame, callee, args, dest_ty):
+        v = Agg(ex.ctx, ex.ctx.fresh("vec"), dest_ty)
+        v.veclen = bvconst(0, 64)
+        return v
+
+    def read_to_end(ex, path, frame, callee, args, dest_ty):
+        # Result<usize>: on Ok(n) the vector grew by n bytes (n is whatever the reader delivered)
+        vec = args[-1].cell.val if isinstance(args[-1], Ref) else None
+        out = Agg(ex.ctx, ex.ctx.fresh("read_to_end"), dest_ty)
+        n = out.variant_cell("Ok").val.field_cell("0", "usize").val
+        if isinstance(vec, Agg) and getattr(vec, "veclen", None) is not None:
+            vec.veclen = f"(bvadd {vec.veclen} {n.term})"
+        path.events.append({"callee": callee, "args": args, "ret": out, "fn": "", "argdesc": [mirsmt.describe(a) for a in args],
+                            "modelled": True, "pc_prefix": list(path.pc)})
+        return out
+
+    def keep(ex, path, frame, callee, args, dest_ty):
+        # calls that take the Vec / its slice by &mut without changing the length: read_exact, deref_mut, as_mut_slice
+        out = ex.ctx.sym(ex.ctx.fresh("ret:" + mirsmt.short(callee)), dest_ty)
+        path.events.append({"callee": callee, "args": args, "ret": out, "fn": "", "argdesc": [mirsmt.describe(a) for a in args],
+                            "modelled": True, "pc_prefix": list(path.pc)})
+        return out
+    return {r"^std::vec::from_elem::<u8>$": from_elem, r"^Vec::<u8>::(new|with_capacity)$": new_vec,
+            r"::read_to_end$": read_to_end, r"::read_exact$": keep, r"<Vec<u8> as DerefMut>::deref_mut$": keep,
+            r"Vec::<u8>::as_mut_slice$": keep}
+
+
+@obligation(id="C20.framing_exact_length", funcs="read_message",
+            bounds="every path of read_message<R>; the reader is abstract (any delivery, any error); Vec length tracked "
+                   "through from_elem / new / read_to_end / read_exact / deref_mut, any other &mut use makes it unknown",
+            native="c20_truncated_frame")
+def c20_framing_exact(env, ob):
+    ctx, f, args, res = explore(env, None, "read_message", sig=r"Result<Vec<u8>, TcpError>", models=_veclen_models())
+    cands, oks = [], 0
+    for path, rv in res:
+        if path.cut or path.panics or not isinstance(rv, Agg):
+            continue
+        if mirsmt.const_of(rv.get_disc().term) != 0:
+            continue
+        oks += 1
+        le = [e for e in path.events if callee_is(e, r"from_le_bytes$") and isinstance(e["ret"], Leaf)]
+        if not le:
+            return result(ob, "violated", failed=["frame_returned_without_reading_a_length"], cex={"what": "Ok path without length prefix"})
+        w = mirsmt.INT_W[le[0]["ret"].ty]
+        announced = f"((_ zero_extend {64 - w}) {le[0]['ret'].term})" if w < 64 else le[0]["ret"].term
+        vec = rv.variants["Ok"].val.fields["0"].val
+        vl = getattr(vec, "veclen", None)
+        if vl is None:
+            vl = ctx.declare(ctx.fresh("unknown_len"), "usize").term
+        cands.append(conj(path.pc + [f"(not (= {vl} {announced}))"]))
+    if not oks:
+        return result(ob, "inconclusive", reason="vacuity: no Ok path", paths=len(res))
+    chk = env.check(ctx, [disj(cands)])
+    kw = dict(paths=len(res), queries=1)
+    if chk[0]["verdict"] == "unsat":
+        return result(ob, "discharged", **kw)
+    if chk[0]["verdict"] == "sat":
+        return result(ob, "violated", failed=["frame_shorter_or_longer_than_announced"],
+                      cex={"what": "read_message can return Ok(buffer) whose length differs from the announced frame length"}, **kw)
+    return result(ob, "inconclusive", reason=chk[0]["verdict"], **kw)
+
+
 # =====================================================================================================================
 # driver interface
 # =====================================================================================================================
@@ -1302,10 +1590,11 @@ def replay(scratch, cands, prop):
     drives the real code (public API or the kernel itself with the counterexample's values) and FAILS iff the defect
     shows.  The test is injected under cfg(test) into the scratch copy and run with the repo's own toolchain."""
     out = {}
-    names = sorted({c.get("native") for c in cands if c.get("native")})
-    res = run_native(scratch, names) if names else {}
+    names = sorted({c.get("native") for c in cands if c.get("native") and not c.get("native_code")})
+    gen = {c["native_code"]["name"]: c["native_code"]["code"] for c in cands if c.get("native_code")}
+    res = run_native(scratch, names, gen) if (names or gen) else {}
     for c in cands:
-        n = c.get("native")
+        n = c["native_code"]["name"] if c.get("native_code") else c.get("native")
         if not n:
             out[c["id"]] = {"reproduced": False, "replay": None, "panic": "no native scenario registered for this obligation"}
             continue
@@ -1316,17 +1605,26 @@ def replay(scratch, cands, prop):
             os.makedirs(d, exist_ok=True)
             path = os.path.join(d, n + ".mreplay")
             with open(path, "w") as f:
-                json.dump({"obligation": c["id"], "native_test": n, "failed": c.get("failed"), "cex": c.get("cex"),
+                json.dump({"obligation": c["id"], "native_test": n, "generated_code": (c.get("native_code") or {}).get("code"),
+                           "failed": c.get("failed"), "cex": c.get("cex"),
                            "panic": r.get("panic"), "rerun": "/verif/bin/check --replay " + path}, f, indent=1, default=str)
         out[c["id"]] = {"reproduced": bool(r.get("failed")), "replay": path, "panic": r.get("panic", r.get("log", "")[-300:])}
     return out
 
 
-def run_native(scratch, names):
+def run_native(scratch, names, generated=None):
+    """names: registered scenarios (harness/native/<n>.rs); generated: {name: source text} produced from a solver model"""
     inj = {}
+    generated = generated or {}
+    names = list(names) + [g for g in generated if g not in names]
     for n in names:
-        p = native_test_path(n)
-        txt = open(p).read()
+        if n in generated:
+            txt = generated[n]
+            p = os.path.join(scratch.dir, "gen_" + n + ".rs")
+            open(p, "w").write(txt)
+        else:
+            p = native_test_path(n)
+            txt = open(p).read()
         host = re.search(r"// host: (\S+)", txt).group(1)
         vdir = os.path.join(scratch.crate, "src", "__verif")
         os.makedirs(vdir, exist_ok=True)
@@ -1356,7 +1654,8 @@ def replay_file(path):
     d = json.load(open(path))
     sc = Scratch("mreplay")
     try:
-        r = run_native(sc, [d["native_test"]])[d["native_test"]]
+        gen = {d["native_test"]: d["generated_code"]} if d.get("generated_code") else None
+        r = run_native(sc, [] if gen else [d["native_test"]], gen)[d["native_test"]]
         if r["failed"]:
             print("REPLAY: native scenario still fails on the current tree:", r["panic"])
             return 1
